@@ -65,7 +65,7 @@ def selftest():
 #   stored                 the object returned by ansatz.var_params, edited in place to the target values, then passed
 #   set_then_update        p fresh; ansatz.set_var_params(p) followed by update_var_params(p) / build_circuit(p) with the same object
 #   reuse                  one caller-owned list/array re-used across successive calls with in-place edits in between
-PASS_MODES = ["list", "list", "list", "numpy", "numpy", "tuple", "stored", "stored", "set_then_update", "set_then_update", "reuse", "reuse"]
+PASS_MODES = ["list", "list", "numpy", "numpy", "tuple", "stored", "stored", "set_then_update", "set_then_update", "reuse", "reuse", "reuse"]
 
 
 @st.composite
